@@ -18,7 +18,10 @@ fn is_far_ring(r: &Ring) -> bool {
 }
 
 fn square(x: f64, y: f64) -> MP {
-    MultiPolygon(vec![poly_from(&[(x, y), (x + 1.0, y), (x + 1.0, y + 1.0), (x, y + 1.0)], &[])])
+    MultiPolygon(vec![poly_from(
+        &[(x, y), (x + 1.0, y), (x + 1.0, y + 1.0), (x, y + 1.0)],
+        &[],
+    )])
 }
 
 /// S22: faces 0..3 the 2x2 core, faces 4..7 the satellites; compare with the same pair without satellites
@@ -55,7 +58,10 @@ pub fn s22_case(fam: &Family, a: u32, b: u32, loc: &mut Local) -> Vec<String> {
         let near: Vec<Ring> = all.iter().filter(|r| !is_far_ring(r)).cloned().collect();
         let far: Vec<Ring> = all.iter().filter(|r| is_far_ring(r)).cloned().collect();
         if near != ring_set(&rc, Nf::U) {
-            cl.push(format!("C09 far-parts-change-the-near-rings {}", op_name(op)));
+            cl.push(format!(
+                "C09 far-parts-change-the-near-rings {}",
+                op_name(op)
+            ));
         }
         let m = model(a, b, op) >> 4;
         let mut want: Vec<Ring> = vec![];
@@ -71,8 +77,16 @@ pub fn s22_case(fam: &Family, a: u32, b: u32, loc: &mut Local) -> Vec<String> {
         // the far parts are polygons of their own without holes, and no near polygon carries a far hole
         for p in &r.0 {
             let e = ring_nf(p.exterior(), Nf::U);
-            if is_far_ring(&e) != p.interiors().iter().all(|h| is_far_ring(&ring_nf(h, Nf::U))) && !p.interiors().is_empty() {
-                cl.push(format!("C09 far-part-nested-with-near-part {}", op_name(op)));
+            if is_far_ring(&e)
+                != p.interiors()
+                    .iter()
+                    .all(|h| is_far_ring(&ring_nf(h, Nf::U)))
+                && !p.interiors().is_empty()
+            {
+                cl.push(format!(
+                    "C09 far-part-nested-with-near-part {}",
+                    op_name(op)
+                ));
             }
             if is_far_ring(&e) && !p.interiors().is_empty() {
                 cl.push(format!("C09 far-part-has-holes {}", op_name(op)));
@@ -82,7 +96,12 @@ pub fn s22_case(fam: &Family, a: u32, b: u32, loc: &mut Local) -> Vec<String> {
     cl
 }
 
-pub const DIRS: [(&str, f64, f64); 4] = [("left", -100.0, 0.0), ("right", 100.0, 1.0), ("below", 0.0, -100.0), ("above", 1.0, 100.0)];
+pub const DIRS: [(&str, f64, f64); 4] = [
+    ("left", -100.0, 0.0),
+    ("right", 100.0, 1.0),
+    ("below", 0.0, -100.0),
+    ("above", 1.0, 100.0),
+];
 
 /// one far unit square added to one operand of a pair of an arbitrary complex family
 pub fn added_case(fam: &Family, enc: Enc, a: u32, b: u32, loc: &mut Local) -> Vec<String> {
@@ -110,7 +129,11 @@ pub fn added_case(fam: &Family, enc: Enc, a: u32, b: u32, loc: &mut Local) -> Ve
                     MultiPolygon(v)
                 };
                 for first in [false, true] {
-                    let (xa, xb) = if side == 0 { (add(pa, first), pb.clone()) } else { (pa.clone(), add(pb, first)) };
+                    let (xa, xb) = if side == 0 {
+                        (add(pa, first), pb.clone())
+                    } else {
+                        (pa.clone(), add(pb, first))
+                    };
                     let o = call(&xa, &xb, op);
                     loc.transitions += 1;
                     if o.trivial != oc.trivial || o.early != oc.early {
@@ -146,10 +169,17 @@ pub fn added_case(fam: &Family, enc: Enc, a: u32, b: u32, loc: &mut Local) -> Ve
 pub fn replay(case: &Value, verbose: bool) -> Vec<String> {
     let mut loc = Local::default();
     let fam = family_cached(case["family"].as_str().unwrap());
-    let (a, b) = (case["a"].as_u64().unwrap() as u32, case["b"].as_u64().unwrap() as u32);
+    let (a, b) = (
+        case["a"].as_u64().unwrap() as u32,
+        case["b"].as_u64().unwrap() as u32,
+    );
     let enc = enc_from(case["enc"].as_str().unwrap_or("M"));
     if verbose {
-        println!("A = {}\nB = {}", hex(&fam.enc(enc)[a as usize]), hex(&fam.enc(enc)[b as usize]));
+        println!(
+            "A = {}\nB = {}",
+            hex(&fam.enc(enc)[a as usize]),
+            hex(&fam.enc(enc)[b as usize])
+        );
     }
     match case["kind"].as_str().unwrap() {
         "s22" => s22_case(&fam, a, b, &mut loc),
@@ -173,7 +203,11 @@ pub fn run(tier: &str) -> i32 {
                     loc.nontrivial += 1;
                 }
                 for c in s22_case(&fam, a, b, &mut loc) {
-                    loc.violation(&c, format!("S22:{a}:{b}:{}", clause_op(&c)), json!({"prop": "C09", "kind": "s22", "family": "S22", "a": a, "b": b}));
+                    loc.violation(
+                        &c,
+                        format!("S22:{a}:{b}:{}", clause_op(&c)),
+                        json!({"prop": "C09", "kind": "s22", "family": "S22", "a": a, "b": b}),
+                    );
                 }
             }
             st.merge(&loc);
@@ -181,9 +215,25 @@ pub fn run(tier: &str) -> i32 {
         st.sample(json!({"family": "S22", "a_mask": 0b0010_0110, "b_mask": 0b1000_0011, "A": hex(&fam.m[0b0010_0110]), "B": hex(&fam.m[0b1000_0011])}));
     }
     let fams: Vec<(&str, Enc, u32)> = if thorough {
-        vec![("G22", Enc::M, 1), ("G22", Enc::U, 1), ("G32", Enc::M, 1), ("G23", Enc::M, 1), ("T22", Enc::M, 1), ("O21", Enc::M, 1), ("O12", Enc::M, 1), ("G33", Enc::M, 1)]
+        vec![
+            ("G22", Enc::M, 1),
+            ("G22", Enc::U, 1),
+            ("G32", Enc::M, 1),
+            ("G23", Enc::M, 1),
+            ("T22", Enc::M, 1),
+            ("O21", Enc::M, 1),
+            ("O12", Enc::M, 1),
+            ("G33", Enc::M, 1),
+        ]
     } else {
-        vec![("G22", Enc::M, 1), ("G32", Enc::M, 1), ("G23", Enc::M, 1), ("T22", Enc::M, 2), ("O21", Enc::M, 2), ("G33", Enc::M, 16)]
+        vec![
+            ("G22", Enc::M, 1),
+            ("G32", Enc::M, 1),
+            ("G23", Enc::M, 1),
+            ("T22", Enc::M, 2),
+            ("O21", Enc::M, 2),
+            ("G33", Enc::M, 16),
+        ]
     };
     for (name, enc, step) in fams {
         let fam = Family::new(name);
